@@ -1345,7 +1345,7 @@ func init() {
 							rep.violation(json.RawMessage(raw), "success", err.Error(), "streaming write without fault failed")
 						} else if a.kind == "token-dagcbor" || a.kind == "token-dagjson" {
 							t := a.toks[0]
-							g, _ := unsealBoth(t.typ, strings.TrimPrefix(a.kind, "token-"), fw.buf.Bytes())
+							g, _ := unsealBoth(t.typ, strings.TrimPrefix(a.kind, "token-"), fw.buf.Bytes(), 0)
 							if g.err != nil {
 								rep.violation(json.RawMessage(raw), "decodable output", g.err.Error(), "the output of the streaming encoder ("+a.kind+") cannot be decoded")
 							} else if _, f, _ := fieldsOf(g.tok); sameFields(f, t.fields) != "" {
